@@ -13,7 +13,7 @@ RULE = (
     "{memento with automatic version, memento with explicit version, plain} (at least one automatic), each edge rendered as a bare-name call, plus for every graph one variant in which the edges of one node are hidden dynamic calls and one in which they sit in the argument list of a call inside an attribute chain; (b) random - Hypothesis programs of up to 8 functions in 1-2 modules "
     "with bare-name, module-attribute, alias and functools.wraps references, callees invoked through a force_local() clone, and hidden calls through globals()/sys.modules (also to explicitly-versioned functions and through clones). Oracle: the harness' own reachability over the generated graph. "
     "transitive_memento_fn_dependencies == memento nodes reachable from f (through any nodes) minus f; direct_... == memento nodes named in f's own body minus f; df() == pairs (memento m -> memento m' != m) "
-    "with a path from m to m' through plain nodes only, for m = f or reachable from f. Enforcement: calling f with arguments 1 and 2, the outcome is UndeclaredDependencyError iff a simulation of the execution meets a "
+    "with a path from m to m' through plain nodes only, for m = f or reachable from f. Enforcement: calling f with arguments 1 and 2 (directly, or - for half of the cases - the second one through two chained modifiers partial().force_local()), the outcome is UndeclaredDependencyError iff a simulation of the execution meets a "
     "call from an automatically-versioned memento frame to a memento function that is neither in that frame's closure nor the frame itself; otherwise the value equals the un-memoized run; the roots are then called with every hidden callee handed over in the context arguments (those calls are allowed) and once more without (refused again). "
     "For random programs one plain helper is additionally re-defined in the running process with a retargeted call edge (no memento registration) and the closures are asked again and compared with the model of the edited program. "
     "Non-trivial = graph with a cycle, a memento node reachable only through a plain node, or a hidden edge; distinct by graph."
@@ -61,7 +61,7 @@ def exhaustive_cases(max_n):
                 srcs = sorted({a for a, _ in es})
                 if srcs:
                     hn = srcs[mask % len(srcs)]
-                    yield {"program": graph_program(n, kinds, es, hidden_node=hn), "src": "exhaustive-hidden", "n": n}
+                    yield {"program": graph_program(n, kinds, es, hidden_node=hn), "src": "exhaustive-hidden", "n": n, "chained": bool(mask % 2)}
                     yield {"program": graph_program(n, kinds, es, attrchain_node=srcs[(mask + 1) % len(srcs)]), "src": "exhaustive-attrchain", "n": n}
 
 
@@ -220,7 +220,7 @@ def execute(case, scratch):
         roots = [[f["mod"], f["name"]] for f in progs.fns(prog) if f["memento"] and f.get("version") is None]
         spec = {"pkgroot": d, "pkg": prog["pkg"], "modules": prog["modules"], "store": os.path.join(d, "store"),
                 "fns": mem_fns, "roots": roots, "args": [1, 2]}
-        got = proc.forkrun(progrun.run_deps, dict(spec, identity=False, passing=[list(x) for x in passing], pass_arg=1, after_arg=3,
+        got = proc.forkrun(progrun.run_deps, dict(spec, identity=False, chained=bool(case.get("chained")), passing=[list(x) for x in passing], pass_arg=1, after_arg=3,
                                                   evolve_cells=evolve_cells))
         ref = proc.forkrun(progrun.run_deps, dict(spec, identity=True, args=[1, 2, 3]), env={"VERIF_RT_IDENTITY": "1"})
         mdl, fl, succ = model(prog)
@@ -276,7 +276,7 @@ def execute(case, scratch):
         out.labels = sorted(set(out.labels)) + ["src:" + case.get("src", "random")] + (["cycle"] if cyc else []) + (["memento-via-plain-or-memento"] if via_plain else []) + \
             (["hidden-edge"] if "hidden" in feats else []) + (["refusal-expected"] if hidden_exec else []) + \
             ["feat:" + f for f in feats if f in ("alias-or-wrapper", "two-modules", "explicit-version", "hidden-to-explicit", "hidden-via-clone", "call-via-clone", "package-init-module")] + \
-            (["evolved-in-process"] if p2 is not None else [])
+            (["evolved-in-process"] if p2 is not None else []) + (["roots-through-chained-modifiers"] if case.get("chained") else [])
         out.nt_key = prog
         out.render = {"src": case.get("src"), "files": {k: v[v.index("return w") + 10:] for k, v in progs.render_files(prog).items() if v}}
         return out
@@ -301,8 +301,8 @@ def replay(case, ctx):
 def strategy(thorough):
     from hypothesis import strategies as st
     evolve = st.integers(0, 3).flatmap(lambda i: st.none() if i == 0 else st.builds(lambda e, w: dict(e, which=w), progs.edit_strategy(), st.integers(0, 7)))
-    return st.builds(lambda p, ev: {"program": p, "src": "random", "evolve": ev},
-                     progs.program_strategy(max_fns=8 if thorough else 6, allow_explicit=True, allow_cluster=True, allow_init=True), evolve)
+    return st.builds(lambda p, ev, ch: {"program": p, "src": "random", "evolve": ev, "chained": ch},
+                     progs.program_strategy(max_fns=8 if thorough else 6, allow_explicit=True, allow_cluster=True, allow_init=True), evolve, st.booleans())
 
 
 def run_shard(ctx):
